@@ -132,7 +132,7 @@ impl Ctx {
             evals: 0,
             ops: BTreeMap::new(),
             distinct: IdSet::default(),
-            distinct_cap: 1 << 21,
+            distinct_cap: if tier == TIER_QUICK { 1 << 21 } else { 1 << 23 },
             distinct_saturated: false,
             samples: BTreeMap::new(),
             viols: Vec::new(),
